@@ -124,8 +124,12 @@ func (d *Drive) RunImport(wi *WInfo, between Between, timeout time.Duration) (st
 			d.G.Release()
 			return st, true
 		}
-		if ev.Committed && between != nil {
-			between("import", step, st)
+		if between != nil {
+			if ev.Committed {
+				between("import", step, st)
+			} else {
+				between("import-failed", step, st)
+			}
 		}
 		if d.Stats["import_retries"] > 400 {
 			d.G.Disarm()
